@@ -24,6 +24,10 @@ EXPLANATION = (
     'generated DST-start transition uses the dst_start rule converted with the standard offset and '
     'the DST type, the DST-end transition the dst_end rule with the DST offset and the standard '
     'type; each transition\'s previous civil second is computed with the type in force before it. '
+    'C01-days: abstract interpretation of the rule-date evaluation on specification-chosen input '
+    'partitions shows that Jn skips 29 February, n is the zero-based day, and Mm.w.d lands inside '
+    'month m (first four weeks / last seven days) for both year lengths. C01-default: the '
+    'before-first-transition type is type 0 unless some transition was seen to use type 0. '
     'C01-footer: with the field ranges the footer parser admits, every table subscript of the rule '
     'expander is in bounds. Does not decide the decode, the rule arithmetic of TransOffset, or the '
     'values produced.')
@@ -237,6 +241,90 @@ def run(ctx):
               'Load computes prev_civil_sec/civil_sec with the wrong transition type (or not starting from the default type)',
               construct='rule:civil')
     ctx.minimum('C01-rule', 2)
+
+    # ---- C01-days: the day-of-year a footer date denotes, by abstract interpretation of TransOffset
+    #      on specification-chosen input partitions (intervals, not points)
+    kt = G.one('cctz::TransOffset')
+    ut, ft = G.defs[kt]
+    pst = params_of(ft)
+    u_, d_ = one_var(ctx.P, 'cctz::kMonthOffsets')
+    MO = table_of(u_, d_)[0]
+    SPD = vals['kSecsPerDay']
+
+    def days_of(leap, fmt, fields):
+        ai = AI(G, Observer())
+        st = St()
+        st.mem[(pst[0]['id'],)] = Int(leap, leap)
+        st.mem[(pst[1]['id'],)] = Int(0, 6)
+        st.refs[pst[2]['id']] = ('PT',)
+        st.mem[('PT', 'date', 'fmt')] = Int(fmt, fmt)
+        for k_, v_ in fields.items():
+            st.mem[('PT', 'date') + k_] = v_
+        st.mem[('PT', 'time', 'offset')] = Int(0, 0)
+        res = ai.analyse(kt, st)
+        out = None
+        for (v, s_) in res or ():
+            if isinstance(v, Int):
+                out = v if out is None else out.join(v)
+        if out is None or out.lo % SPD or out.hi % SPD:
+            return None
+        return (out.lo // SPD, out.hi // SPD)
+    FMT = dict(J=0, N=1, M=2)
+    for leap in (0, 1):
+        yr = 'leap year' if leap else 'common year'
+        # Jn: n counts the days of a common year; Feb 29 is never denoted
+        cases = [((1, 59), (0, 58)), ((60, 365), (59 + leap, 364 + leap))]
+        for (a, b), want in cases:
+            got = days_of(leap, FMT['J'], {('j', 'day'): Int(a, b)})
+            ctx.check(got == want, 'C01-days', 'J%d..J%d in a %s denote day offsets %d..%d' % (a, b, yr, want[0], want[1]), ft,
+                      'the Julian-day form Jn maps n in [%d,%d] of a %s to day offsets %s; the calendar gives %s (n counts '
+                      'days of a common year, so 29 February is skipped)' % (a, b, yr, got, want), construct='days:J:%d:%d' % (leap, a),
+                      detail=str(got))
+        got = days_of(leap, FMT['N'], {('n', 'day'): Int(0, 365)})
+        ctx.check(got == (0, 365), 'C01-days', 'n = 0..365 in a %s denotes the same zero-based day' % yr, ft,
+                  'the zero-based day form maps [0,365] to %s' % (got,), construct='days:N:%d' % leap, detail=str(got))
+        for m in range(1, 13):
+            first, last = MO[leap][m], MO[leap][m + 1] - 1
+            for (w0, w1), want in (((1, 4), (first, first + 27)), ((5, 5), (last - 6, last))):
+                got = days_of(leap, FMT['M'], {('m', 'month'): Int(m, m), ('m', 'week'): Int(w0, w1), ('m', 'weekday'): Int(0, 6)})
+                ctx.check(got == want, 'C01-days', 'M%d.%s.d in a %s lies in day offsets %d..%d' % (
+                    m, '%d-%d' % (w0, w1) if w0 != w1 else '5(last)', yr, want[0], want[1]), ft,
+                    'the rule date M%d.w.d (w in %d..%d) of a %s evaluates to day offsets %s; the %s of month %d are %s' % (
+                        m, w0, w1, yr, got, 'first four weeks' if w0 == 1 else 'last seven days', m, want),
+                    construct='days:M:%d:%d:%d' % (leap, m, w0), detail=str(got))
+    ctx.minimum('C01-days', 50)
+
+    # ---- C01-default: type 0 is the before-first type unless a transition uses type 0 (legacy files)
+    F = ctx.facts(f)     # f is Load(ZoneInfoSource*) here
+    raw = Keys(u)
+    n_def = 0
+    for x in walk(f):
+        if x.get('kind') == 'BinaryOperator' and x.get('opcode') == '=' and raw.key(kids(x)[0]) == 'this.default_transition_type_':
+            rk = F.keys.key(kids(x)[1])
+            n_def += 1
+            if rk == 'n:0':
+                ctx.ok('C01-default', 'before-first type starts as type 0', x, 'constant 0')
+                continue
+            fs = F.facts_at_ast(x) or frozenset()
+            flags = [a if b == 'n:0' else b for (op, a, b) in fs if op == '!=' and 'n:0' in (a, b) and re.match(r'^\w+#0x[0-9a-f]+$', a if b == 'n:0' else b)]
+            good = False
+            for fl in flags:
+                did = fl.split('#')[1]
+                d = u.by_id.get(did)
+                if d is None or 'bool' not in (dtype(d) or qtype(d)) or not kids(d) or F.keys.key(kids(d)[-1]) != 'n:0':
+                    continue
+                sets = [y for y in walk(f) if y.get('kind') == 'BinaryOperator' and y.get('opcode') == '=' and
+                        (peel(kids(y)[0]).get('referencedDecl') or {}).get('id') == did]
+                if sets and all(F.keys.key(kids(y)[1]) == 'n:1' and any(
+                        op == '==' and 'n:0' in (a, b) and (a + b).replace('n:0', '').endswith('.type_index')
+                        for (op, a, b) in (F.facts_at_ast(y) or ())) for y in sets):
+                    good = True
+            ctx.check(good, 'C01-default', 'another before-first type is chosen only when a transition uses type 0', x,
+                      'the type for instants before the first transition is replaced although no transition was seen to '
+                      'use type 0: files written by current zic designate type 0 for that period', construct='default:override',
+                      detail='guarded by a flag set only under type_index == 0')
+    ctx.check(n_def >= 2, 'C01-default', 'default type assignments found', f, 'found %d' % n_def, construct='default:count')
+    ctx.minimum('C01-default', 3)
 
     # ---- C01-footer
     c12.check_footer(ctx, 'C01-footer')
